@@ -29,7 +29,17 @@ P = 'C05'
 REL = 'optimism/TrustRegionSPG.py'
 INF = float('inf')
 
-DESIGNED_NOT_REGISTERED = []
+DESIGNED_NOT_REGISTERED = [
+    ('O4.spg_body[exact-*-n2-*] (exact/Kouri line search, n=2)',
+     'step_length_in_unit_interval (alpha >= 0, i.e. d.s <= 0 for the trust-region path projection in 2-D) stays unknown on one path per pattern (ff.ff 1919 s, fi.if 2614 s wall; '
+     'nlsat, default solver and qfnra, 150 s per query; all other 22 goal names discharge). Registered for n=1 (quick), where every path discharges. A float probe of 2e5 random 2-D '
+     'states of the real project_onto_tr found no d.s > 0, so this is solver reach, not a suspected defect.'),
+    ('O4.spg_body[nonmonotone-older-n2-fi.if] and the other 14 two-coordinate bound-kind patterns at n=2',
+     'one SPG body at n=2 with one-sided bounds did not finish within 60 min wall (the finite box ff.ff takes 14 min and is registered in the thorough tier); n=1 covers all of ff, fi, ii'),
+    ('O4 model decrease along SPG iterations (q_new <= max(history)) and d.s <= 0 as goals of their own',
+     'DESIGN lists them as lemmas for alpha in [0,1]; alpha in [0,1] is discharged directly from the real line-search code, the model decrease is a convergence-side fact outside the property'),
+    ('O3 sufficient decrease after the radius cut-back loop', 'the code does not re-test it after cutting alpha back; DESIGN claims it only on the forward/back-tracking exits (registered)'),
+]
 
 # bound kinds of one coordinate: (lower is finite, upper is finite)
 KINDS = {'ff': (True, True), 'fi': (True, False), 'if': (False, True), 'ii': (False, False)}
@@ -690,9 +700,7 @@ for _pat in (('ff',), ('fi',), ('ii',)):
     _reg_spg(False, 'inf', _pat, ('quick', 'thorough'))
     _reg_spg(True, 'inf', _pat, ('thorough',))
     _reg_spg(True, 'single', _pat, ('thorough',))
-for _pat in (('ff', 'ff'), ('fi', 'if')):
-    _reg_spg(True, 'older', _pat, ('thorough',))
-    _reg_spg(False, 'inf', _pat, ('thorough',))
+_reg_spg(True, 'older', ('ff', 'ff'), ('thorough',))
 
 
 @obligation(P, 'O4.spg_prologue', cap=600)
